@@ -111,7 +111,7 @@ class Env:
         q0 = self.nsql
         kind = op[0]
         res = "ok"
-        if kind in ("add", "delete", "expunge", "expire", "mt", "mtd", "setpk", "merge") and not (0 <= op[1] < len(P)):
+        if kind in ("add", "delete", "expunge", "expire", "mt", "mtd", "setpk", "merge", "refresh") and not (0 <= op[1] < len(P)):
             return None  # bad-oid: not executed
         with warnings.catch_warnings():
             warnings.simplefilter("ignore")
@@ -169,6 +169,18 @@ class Env:
                     s.close()
                 elif kind == "expunge_all":
                     s.expunge_all()
+                elif kind == "query":
+                    opts = {}
+                    if op[1]:
+                        opts["populate_existing"] = True
+                    if op[2]:
+                        opts["yield_per"] = 2
+                    stmt = self.sa.select(self.Item).order_by(self.Item.id)
+                    rows = s.execute(stmt, execution_options=opts).scalars().all()
+                    self.last_query = rows
+                    res = "ok:[" + ".".join(str(self.idx(o)) for o in rows) + "]"
+                elif kind == "refresh":
+                    s.refresh(P[op[1]])
                 else:
                     raise ValueError(kind)
             except Exception as e:  # noqa: BLE001 - every exception class is an observable
